@@ -105,7 +105,7 @@ pub fn run(ctx: &Ctx, rec: &mut Rec) {
         rec.declare_class(&format!("partner:{p}"));
     }
     let mut zrng = rng_for(ctx.seed, P, 999, 0);
-    let zoo = shadow_zoo(ctx, &mut zrng, ctx.scale(8, 60));
+    let zoo = shadow_zoo(ctx, &mut zrng, ctx.scale(20, 80));
     rec.count("zoo_elements", zoo.len() as u64);
 
     // (i) form x operand-class matrix
@@ -173,7 +173,7 @@ pub fn run(ctx: &Ctx, rec: &mut Rec) {
     //      neutral element, P - P
     par(rec, |w, n, rec| {
         let mut rng = rng_for(ctx.seed, P, w, 3);
-        let reps = ctx.scale(400, 20000);
+        let reps = ctx.scale(3000, 40000);
         for rep in 0..reps {
             if rep % n != w {
                 continue;
@@ -222,7 +222,7 @@ pub fn run(ctx: &Ctx, rec: &mut Rec) {
     });
 
     // (iii) straight-line programs mixing all forms
-    let nprog = ctx.scale(500, 50000);
+    let nprog = ctx.scale(3000, 60000);
     par(rec, |w, n, rec| {
         let mut rng = rng_for(ctx.seed, P, w, 4);
         for pi in 0..nprog {
